@@ -119,6 +119,19 @@ def run(ctx):
                                  {"op": "adopt", "p": "q", "ctx": "thread", "force": True}, {"op": "adopt", "p": "t1", "ctx": "driver", "force": True}, {"op": "reaccept_start"},
                                  {"op": "wait_start", "p": "q", "force": True}, {"op": "wait_start", "p": "t1", "force": True}, {"op": "step", "p": "t1", "force": True},
                                  {"op": "shutdown", "ctx": "thread", "wait": True}, {"op": "reaccept_wait", "timeout": 4.0}], "shape": "targeted-stop-restart-stop"})
+    # the first two accept() calls of a process at the same instant (tiny GIL switch interval):
+    # exactly one of the runners accepts
+    for k in range(60 if thorough else 24):
+        extra.append({"seed": ctx.seed + k, "jitter": 0.0, "switchinterval": 1e-6, "payloads": {"a1": {"flavour": "asyncio"}},
+                      "script": [{"op": "adopt", "p": "a1"}, {"op": "accept_pair", "ms": 250}, {"op": "shutdown2"}, {"op": "shutdown", "ctx": "thread", "wait": True}, {"op": "wait_end", "timeout": 4.0}, {"op": "sleep", "ms": 100}],
+                      "shape": "targeted-first-two-accepts-at-once"})
+    # a first run of the runtime ends by a failure, its second run is interrupted: the second
+    # run ends without an error (validated as an epoch of its own)
+    for k, f in enumerate(scen.FLAVS):
+        extra.append({"seed": ctx.seed + k, "jitter": 0.0, "reaccept": True, "epoch": 2, "payloads": {"f": {"flavour": f}, "q": {"flavour": "asyncio", "cleanup": 1}},
+                      "script": [{"op": "adopt", "p": "f"}, {"op": "accept"}, {"op": "wait_running"}, {"op": "wait_start", "p": "f"}, {"op": "end", "p": "f", "how": "exc:UserExc"}, {"op": "wait_end", "timeout": 4.0},
+                                 {"op": "adopt", "p": "q", "ctx": "thread", "force": True}, {"op": "reaccept_start"}, {"op": "wait_start", "p": "q", "force": True},
+                                 {"op": "sigint", "force": True}, {"op": "reaccept_wait", "timeout": 4.0}], "shape": "targeted-failure-restart-interrupt"})
     # payloads that swallow their first cancellation(s)
     for k in range(3):
         extra.append({"seed": ctx.seed + k, "jitter": 0.0, "payloads": {"a1": {"flavour": "asyncio", "swallow": k, "cleanup": 1}, "t1": {"flavour": "trio"}},
